@@ -250,3 +250,5 @@ def run(res: Results, idx: Index, tier: str) -> None:
     for inst in sub.instances:
         if inst.rule == "R-C19e":
             res.add("R-C10d", inst.status, inst.site, f"R-C19e::{inst.key}", f"[C19 R-C19e] {inst.detail}", inst.func)
+    from .c10_batch import run_batch_rules
+    run_batch_rules(res, idx, tier)
